@@ -217,7 +217,7 @@ impl Observer for StoreModel {
                                 if got != expect {
                                     return Err(fail(
                                         "C06.resend_ne_store",
-                                        format!("{v}/{}", if client_sp.is_some() { "client" } else { "server" }),
+                                        format!("{v}/{}{}", if client_sp.is_some() { "client" } else { "server" }, if st.recvs().iter().any(|a| matches!(a, AP::Connack { sp: true, code: 0, .. }) && a.prop_u32(pid::SESSION_EXPIRY_INTERVAL) == Some(0)) { "/CONNACK(session_present=1,SessionExpiryInterval=0)" } else { "" }),
                                         format!("session resumed with store {} but the packets re-sent right after the CONNACK are {}", entries_brief(&expect), entries_brief(&got)),
                                     ));
                                 }
